@@ -55,8 +55,8 @@ func paramsFor(tier string) tierParams {
 		return tierParams{
 			maxDepth:     5,
 			exhaustiveTo: 1500,
-			deepBoundary: []float64{0, 1, 0.30, 0.12, 0.06, 0},
-			deepOther:    []float64{0, 0.05, 0.01, 0, 0, 0},
+			deepBoundary: []float64{0, 0.5, 0.05, 0.02, 0.01, 0},
+			deepOther:    []float64{0, 0.03, 0, 0, 0, 0},
 		}
 	}
 	return tierParams{
@@ -73,7 +73,7 @@ func init() {
 		Level: "fault_enumeration",
 		Cases: func(t string) int {
 			if t == ev.Thorough {
-				return 640
+				return 320
 			}
 			return 48
 		},
@@ -81,9 +81,9 @@ func init() {
 		Rule: "case = one history of WriteBytes (payload lengths biased to 0,1,2,7,8,9,55,56,255,256,4087,4088,4089,4096,8184,8192 and random) / Sync / Shift / Close+reopen on the real file WAL (2/3 with housekeeping idle and explicit Shift, 1/3 with a 10 ms housekeeper and a FileLimit of 64..600 bytes so that doHousekeeping rotates; the history waits until the new segment is observable). Crash = copy of the segment files with the newest segment truncated to EVERY length from its synced length to its current length (byte-exhaustive for tails up to 700 bytes quick / 1500 thorough; larger tails: all offsets within 12 bytes of a frame boundary or a 4096 multiple, the first and last 200, and 200 random ones), plus the variant where a just-created empty newest segment is absent. Each image is recovered with the protocol of consensus.applyRoundWAL (read until error; EOF clean; corrupted/unexpected EOF -> CloseAndRepair; when a repair happened the log is reopened once more), then a writer is reopened, 1-2 records are appended and synced, optionally Shift, 0-2 further records stay unsynced, and the log is crashed again: byte-exhaustively for images selected by class (boundary classes with the per-depth probabilities of the tier), otherwise only with the complete tail; depth 3 quick / 5 thorough. Oracle after EVERY recovery: synced ⊑ recovered ⊑ appended. Non-trivial = distinct crash image (hash of the whole lineage) whose crash offset is strictly inside a frame (header or payload) or at the start of a rotated segment.",
 		MinNonTrivial: func(t string) int {
 			if t == ev.Thorough {
-				return 200000
+				return 500000
 			}
-			return 5000
+			return 20000
 		},
 		Required: []string{
 			"recoveries", "repairs", "repairs_multi_segment", "reopen_after_repair",
@@ -504,6 +504,15 @@ type explorer struct {
 	root   string
 	salt   int64
 	caseNo int
+	// failedLineages counts lineages of this case that ended in a violation;
+	// beyond a small budget the case stops (the keys are already recorded).
+	failedLineages int
+}
+
+const maxFailedLineagesPerCase = 40
+
+func (e *explorer) giveUp() bool {
+	return e.c.Stopped() || e.failedLineages >= maxFailedLineagesPerCase
 }
 
 func (e *explorer) dirFor(depth int) (string, error) {
@@ -562,9 +571,14 @@ func (e *explorer) witness(m *model, dir string, rc *recovery, extra map[string]
 }
 
 // check applies the oracle; it returns false when the lineage must stop.
-func (e *explorer) check(m *model, dir string, rc *recovery, cause, phase string) bool {
+func (e *explorer) check(m *model, dir string, rc *recovery, cause, phase string) (ok bool) {
 	c := e.c
 	c.Count("recoveries", 1)
+	defer func() {
+		if !ok {
+			e.failedLineages++
+		}
+	}()
 	if rc.fatal != nil {
 		c.Violation("wal.recovery-failed."+rc.fatalOp+"."+cause, e.witness(m, dir, rc, map[string]interface{}{"phase": phase}))
 		return false
@@ -688,7 +702,7 @@ func (e *explorer) snapshot(dir string, m *model) (*image, error) {
 // explore recovers one crash image (already described by cp) and continues the lineage.
 func (e *explorer) explore(img *image, cp crashPoint, m *model, depth int) {
 	c := e.c
-	if c.Stopped() {
+	if e.giveUp() {
 		return
 	}
 	dir, err := e.dirFor(depth)
@@ -837,7 +851,7 @@ func (e *explorer) explore(img *image, cp crashPoint, m *model, depth int) {
 	}
 	deep := e.r.Float64() < pr
 	for _, ncp := range e.crashPoints(next, deep) {
-		if c.Stopped() {
+		if e.giveUp() {
 			return
 		}
 		e.explore(next, ncp, m.clone(), depth+1)
@@ -1047,7 +1061,7 @@ func run(c *ev.Ctx) {
 			c.Sample(map[string]interface{}{"history": m.hist, "newest_segment_synced": img.s, "newest_segment_size": img.f, "crash_images_level1": len(pts)})
 		}
 		for _, cp := range pts {
-			if c.Stopped() {
+			if e.giveUp() {
 				break
 			}
 			e.explore(img, cp, m.clone(), 1)
